@@ -53,6 +53,9 @@ def generate(rng, tier="quick"):
         width = rng.choice([1, 2, 3, 4, 5, 7, 8, 9, 15, 16, 17, 31, 32, 33, 100, 127, 128, 129, 200, 255,
                             256, 257, 300, 511, 512, 513, 1000, 4095, 4096, 4097, 32767, 32768, 32769, 40000,
                             65535, rng.randrange(1, 256), rng.randrange(1, 256), rng.randrange(256, 65536)])
+        if rng.random() < 0.3:
+            # stratified walk over ALL widths 1..65535 along the run index (a long soak covers them all)
+            width = 1 + (getattr(rng, "idx", 0) * 7919) % 65535
         start = rng.choice([0, 0, 1, 7, rng.randrange(1 << 20), -3])
         step = {"op": "sweep", "fn": fn, "start": start, "stop": start + width}
         cfg = {"psets": [{"group": {"kind": "none"}}], "nodes": []}
@@ -172,7 +175,11 @@ def execute(scn):
                 v = lib.util.unbiased_randrange(a, b, ent)
             except Exception as e:
                 w.log("drive", "exc:" + type(e).__name__)
-                w.flag("sampler-raised", "unbiased_randrange(%d,%d) raised %s" % (a, b, type(e).__name__), fn="randrange")
+                if ent.exhausted:
+                    w.flag("sampler-does-not-terminate", "unbiased_randrange(%d,%d) asked for more than %d draws under "
+                           "a %s stream" % (a, b, ent.DRAW_CAP, ent.mode), fn="randrange")
+                else:
+                    w.flag("sampler-raised", "unbiased_randrange(%d,%d) raised %s" % (a, b, type(e).__name__), fn="randrange")
                 return w
             w.log("drive", "val", sim.dg(str(v)))
             if not (a <= v < b):
@@ -278,8 +285,17 @@ class SessionOracle(Hooks):
             if api != "start" and seam:
                 clean = False
                 self.flag(w, "entropy-outside-start", "%s() requested %d byte(s) from entropy_f" % (api, seam), api=api)
+        for e in w.events:
+            if e["op"] == "recover" and e["out"] == "exc:NotImplementedError":
+                clean = False
+                self.flag(w, "entropy-outside-start", "from_serialized() tried to draw entropy (the library's own "
+                          "must-not-be-used entropy stub raised NotImplementedError)", api="from_serialized")
         if clean:
             w.probe("accounting-clean")
+        for n in w.nodes:
+            if n.impl == "real" and n.entropy.exhausted:
+                self.flag(w, "sampler-does-not-terminate", "start() asked the entropy function more than %d times"
+                          % n.entropy.DRAW_CAP, family=n.mparams().group.kind)
         for n in w.nodes:
             if n.impl != "real" or n.out is None:
                 continue
